@@ -74,6 +74,7 @@ def items(tier, seed):
                 for same_meas in ((False,) if join == "none" else (False, True)):
                     out.append(("combine", pi, join, merge, same_meas))
     out.append(("merge", None))
+    out.append(("main-measurement", None))
     out.append(("refuse", "channel"))
     out.append(("refuse", "measurement"))
     out.append(("refuse", "parameter"))
@@ -244,6 +245,28 @@ def harness_for(item):
                     env.note(f"model of the combined workspace under measurement {mname} needs settings only the other measurement has: {str(e)[:80]}")
                     continue
                 env.holds(f"model[{mname}]:channels", sorted(mC.config.channels) == sorted(cc), key=key + ":likelihood")
+
+    def main_measurement(env):
+        """the main (first) measurement of both inputs stays the main measurement of an outer join, with the parameter
+        settings of both sides, also when one side brings a further measurement"""
+        env.install_backend()
+        tag, l, r = _pairs()[0]
+        wl = _ws(env, prefix="L_", meas="meas", extra_meas="altL", pars=[{"name": "xs", "inits": [0.25], "bounds": [[-2.0, 2.0]]}], **l)
+        wr = _ws(env, prefix="R_", meas="meas", pars=[{"name": "lumiunc", "inits": [-0.5], "bounds": [[-3.0, 3.0]]}], **r)
+        for a, b, lab in ((wl, wr, "left-extra"), (wr, wl, "right-extra")):
+            WC = pyhf.Workspace.combine(pyhf.Workspace(copy.deepcopy(a)), pyhf.Workspace(copy.deepcopy(b)), join="outer")
+            ms = WC["measurements"]
+            env.holds(f"{lab}:names", sorted(m["name"] for m in ms) == ["altL", "meas"], key="combine:outer:measurements")
+            env.holds(f"{lab}:main-first", ms[0]["name"] == "meas", key="combine:outer:main-measurement")
+            main = next((m for m in ms if m["name"] == "meas"), None)
+            if main is not None:
+                got = {p["name"]: p for p in main["config"]["parameters"]}
+                env.holds(f"{lab}:settings-of-both", sorted(got) == ["lumiunc", "xs"] and got["xs"].get("inits") == [0.25] and got["lumiunc"].get("inits") == [-0.5],
+                          key="combine:outer:main-measurement")
+                mdl = WC.model()
+                init = dict(zip(mdl.config.par_names, mdl.config.suggested_init()))
+                env.holds(f"{lab}:default-model-uses-main", float(SV(init.get("xs", 0)).v) == 0.25 and float(SV(init.get("lumiunc", 0)).v) == -0.5 if env.mode == "sym"
+                          else (init.get("xs") == 0.25 and init.get("lumiunc") == -0.5), key="combine:outer:main-measurement")
 
     def refuse(env):
         what = item[1]
@@ -534,7 +557,7 @@ def harness_for(item):
                 m = W.model()
                 env.holds(f"merge[{join}]:{nm}-model-samples", sorted(m.config.samples) == nsamp, key=f"merge:{join}:no-mutation")
 
-    return {"combine": combine, "refuse": refuse, "prune": prune, "rename": rename, "sorted": sorted_, "merge": merge}[kind]
+    return {"combine": combine, "refuse": refuse, "prune": prune, "rename": rename, "sorted": sorted_, "merge": merge, "main-measurement": main_measurement}[kind]
 
 
 def _present(w, sel):
